@@ -94,6 +94,19 @@ def rejection_table(ctx, names):
                     {"vars": [("multiobj", ([-1.0] * 2, [1.0] * 2))], "obj": "multi2", "minmax": "min", "weights": [0.2, 0.3, 0.5]}), mode=m_, workers=2))
         attempt("weights for a scalar objective", lambda: Counting(cfg).optimize(search.build_task(
             {"vars": [("contmulti", ([-1.0] * 2, [1.0] * 2))], "obj": "sphere", "minmax": "max", "weights": [0.5, 0.5]})))
+        # a refused call leaves nothing behind: the next - valid - call on the SAME instance, in a pooled mode and without a worker count, yields a result
+        for label, bad_kw in (("workers=0", {"workers": 0}), ("workers=-3 (thread)", {"mode": "thread", "workers": -3}), ("unknown mode", {"mode": "parallel", "workers": 2})):
+            n += 1
+            o = cls(cfg)
+            try:
+                with contextlib.redirect_stdout(io.StringIO()):
+                    try: o.optimize(good, **bad_kw)
+                    except (ValueError, ValidationError): pass
+                    res = o.optimize(good, mode="thread")
+                if not res.evolution or res.best_solution is None: raise RuntimeError("incomplete result")
+            except Exception as e:
+                ctx.violation(f"valid-call-after-refused:{label}:{nm}", f"{nm}: after optimize(task, {bad_kw}) was refused, the valid call optimize(task, mode='thread') on the same instance "
+                              f"raises {type(e).__name__}: {str(e)[:120]}", {"kind": "reject", "optimizer": nm, "call": f"valid call after {label}"})
     # task-level rejections do not depend on the optimizer
     for label, spec in (("negative weight", {"vars": [("multiobj", ([-1.0] * 2, [1.0] * 2))], "obj": "multi2", "weights": [0.5, -0.5]}),
                         ("inverted bounds", {"vars": [("cont", (2.0, -2.0))], "obj": "sphere"}),
